@@ -307,6 +307,12 @@ class SimWorld:
 
         class _P:
             def __enter__(self):
+                # only cycles STARTED inside the blocking call are polled: a transmission that is already in flight when
+                # the call begins (a non-blocking write() before it) is finished by the jump, as everywhere else - the
+                # model resolves it atomically, and "resend() while a packet is still on the air" is outside every
+                # property (it was a false alarm of the first version of this view: vp check, seed 1, C20)
+                for r in w.radios:
+                    r.view = None
                 w.poll_depth += 1
 
             def __exit__(self, *a):
